@@ -96,7 +96,7 @@ func c10Endpoints(run *evid.Run, evals, nontrivial *int, mu *sync.Mutex) {
 		d := open
 		d.Endpoints = cl
 		tok := d.Mint()
-		for _, hdr := range []string{"Authorization", "x-piko-authorization", "Authorization+forwarded"} {
+		for _, hdr := range []string{"Authorization", "x-piko-authorization", "Authorization+forwarded", "Authorization+tenant"} {
 			for _, a := range addrs {
 				p := c10Probe{Kind: "proxy", Claims: cl, Addr: a, Header: hdr}
 				ad := e4.Addressing{Mode: a.Mode, Endpoint: a.Endpoint, Other: a.Other, Token: "Bearer " + tok, TokenHdr: hdr}
@@ -105,8 +105,27 @@ func c10Endpoints(run *evid.Run, evals, nontrivial *int, mu *sync.Mutex) {
 					ad.TokenHdr = "Authorization"
 					ad.Forward = true
 				}
+				if hdr == "Authorization+tenant" {
+					// the proxy port has no tenants: naming one is refused, whatever the token
+					ad.TokenHdr = "Authorization"
+					ad.Extra = map[string]string{"x-piko-tenant-id": "t9"}
+				}
+				servedBefore := int64(0)
+				for _, l := range lns {
+					servedBefore += l.Served.Load()
+				}
 				res := e4.Do(nd.ProxyAddr(), ad)
-				want := permitted(cl, a.Endpoint)
+				want := permitted(cl, a.Endpoint) && hdr != "Authorization+tenant"
+				if !want {
+					// whatever status the client sees, a refused request reaches no upstream
+					servedAfter := int64(0)
+					for _, l := range lns {
+						servedAfter += l.Served.Load()
+					}
+					if servedAfter != servedBefore {
+						run.Violation("C10", "refused-request-reached-an-upstream", fmt.Sprintf("claims %v, %+v via %s -> %s, yet an upstream served it", cl, a, hdr, res), map[string]any{"engine": "E4-C10", "probe": p})
+					}
+				}
 				count(!want || a.Mode == "both", p)
 				ok := res.Status == 200 || res.Status == 101
 				desc := fmt.Sprintf("claims %v, %+v via %s -> %s", cl, a, hdr, res)
